@@ -128,7 +128,7 @@ def do_replay(sc, prop, res, ob, seed):
     return path, found
 
 
-def write_evidence(prop, mod, tier, seed, results, audits, wall, violations, undecided, known_hit, sc, extra_assumptions, attempted=()):
+def write_evidence(prop, mod, tier, seed, results, audits, wall, violations, undecided, known_hit, sc, extra_assumptions, attempted=(), partial=False):
     proved_groups = [r for r in results if r.group.kind in ("K1", "K2", "K3")]
     bounded_groups = [r for r in results if r.group.kind == "K5"]
     obligations = sum(len(r.obligations) for r in proved_groups)
@@ -153,6 +153,8 @@ def write_evidence(prop, mod, tier, seed, results, audits, wall, violations, und
                     "enforced": r.group.enforce, "replaced_by_contract": r.group.replace,
                     "bodies_replaced_by_uf_stubs": r.group.remove_bodies,
                     "bound": r.group.bounded, "note": r.group.note, "undecided_reason": r.reason} for r in results],
+        "bounded_obligations_within_bound": sum(len(r.obligations) for r in bounded_groups),
+        "bounded_discharged_within_bound": sum(1 for r in bounded_groups for p in r.obligations if p["status"] == "SUCCESS"),
         "bounded": [{"name": r.group.name, "bound": r.group.bounded, "status": r.status,
                      "obligations_within_bound": len(r.obligations)} for r in bounded_groups],
         "k4_table_audit": audits,
@@ -178,7 +180,8 @@ def write_evidence(prop, mod, tier, seed, results, audits, wall, violations, und
         "violations": violations,
     }
     os.makedirs(os.path.join(VERIF, "evidence"), exist_ok=True)
-    with open(os.path.join(VERIF, "evidence", prop + ".json"), "w") as f:
+    dest = os.path.join(VERIF, "evidence", prop + ".json") if not partial else os.path.join("/tmp", "xrlv-partial-evidence-%s.json" % prop)
+    with open(dest, "w") as f:
         json.dump(ev, f, indent=1)
 
 
@@ -286,7 +289,7 @@ def main(argv=None):
         extra = []
         if hasattr(mod, "extra_assumptions"):
             extra = mod.extra_assumptions()
-        write_evidence(prop, mod, tier, seed, results, audits, wall, nviol, undecided, known_hit, sc, extra, attempted)
+        write_evidence(prop, mod, tier, seed, results, audits, wall, nviol, undecided, known_hit, sc, extra, attempted, partial=bool(a.only))
         nob = sum(len(r.obligations) for r in results)
         ndis = sum(1 for r in results for p in r.obligations if p["status"] == "SUCCESS")
         print("SUMMARY property=%s tier=%s groups=%d obligations=%d discharged=%d undecided_groups=%d known_findings=%d violations=%d wall=%.0fs" % (
